@@ -1,6 +1,7 @@
 """GC rule pack (DESIGN §5.0): GC1..GC9 over Sodg::{add,bind,put,data} and, for the who-may
 rules, over every body of the crate."""
 from core import *
+from core import _is_constlike
 from model import *
 
 MUTATORS = ("add", "bind", "put", "data")
@@ -39,9 +40,7 @@ def context(F):
     # crate-wide: every non-closure body as a root, no helper inlining (each helper is its own root)
     c.all = []
     c.allraw = []
-    for b in F.all_bodies():
-        if b.kind == "Closure":
-            continue
+    for b in F.roots():
         evs, raw, col = state_events(F, b, stop_names=(), depth=0)
         c.all += evs
         c.allraw += raw
@@ -178,7 +177,6 @@ def gc1(F, R):
     c = context(F)
     n_tag = 0
     n_slot = 0
-    exempt_fns = {}
     for e in c.all:
         fk = e.fn_key()
         if e.kind == "tag_write":
@@ -204,37 +202,26 @@ def gc1(F, R):
             if fk == "Sodg::empty" and e.kind == "sodg_field_write":
                 continue
             n_slot += 1
-            exempt_fns.setdefault(fk, []).append(e)
-    # scoped exemption: the non-tree repair helper of merge()
-    for fk, evs in exempt_fns.items():
-        b = owner_body(evs[0].root_body())
-        reason = merge_nontree_exempt(c, b)
-        if reason is True:
-            for e in evs:
+            if nontree_exempt_event(c, e):
                 R.ok("GC1", e.where(), "whole-slot operation in the non-tree repair path of merge() (scoped exemption)",
                      {"op": e.d.get("op", e.kind)})
-        else:
-            for e in evs:
+            else:
                 R.bad("GC1", "GC1/%s/whole-slot-%s" % (fk, e.d.get("op", e.kind)), e.where(),
-                      "whole-slot operation on the vertex store outside the constructor (%s)" % reason,
-                      {"op": e.d.get("op", e.kind)})
+                      "whole-slot operation on the vertex store outside the constructor and outside merge()'s non-tree repair path",
+                      {"op": e.d.get("op", e.kind), "guards": show_facts(e.facts, e.body)})
     R.floor("GC1", "group-tag field writes", n_tag, 3)
     R.note("GC1: %d tag writes, %d whole-slot operations on Sodg::vertices examined over %d bodies"
-           % (n_tag, n_slot, len(F.all_bodies())))
+           % (n_tag, n_slot, len(F.roots())))
 
 
-def merge_nontree_exempt(c, b):
-    """True iff b is a private function called only from the call closure of merge(), every call
-    being control-dependent on the inequality of a kid() result and a right->left map lookup."""
+def merge_closure(c):
+    """paths of the bodies in the call closure of merge() (helpers are inlined; recursive descent and closures remain)"""
+    if hasattr(c, "_merge_closure"):
+        return c._merge_closure
     F = c.F
-    if b.vis == "pub":
-        return "function is public"
     merge = F.fn("Sodg", "merge")
-    if merge is None:
-        return "merge() not found"
-    # call closure of merge
     closure = set()
-    st = [merge.path]
+    st = [merge.path] if merge is not None else []
     while st:
         p = st.pop()
         if p in closure:
@@ -245,32 +232,44 @@ def merge_nontree_exempt(c, b):
             continue
         for site, t in body.calls():
             cc = t["callee"]
-            if cc.get("local") and cc.get("path") in F.bodies:
+            if cc.get("local") and cc.get("path") in F.bodies and F.bodies[cc["path"]].vis != "pub":
                 st.append(cc["path"])
         for cb in F.closures_of(body):
             st.append(cb.path)
-    sites = [e for e in c.allraw if e.kind == "call" and e.path == b.path]
-    if not sites:
-        return "no caller found"
-    for e in sites:
-        if owner_body(e.root_body()).path not in closure and e.body.path not in closure:
-            return "called from outside merge(): %s" % fn_key(e.root_body())
-        ok = False
-        caller = e.body
-        aux_params = [("param", i) for i in range(1, caller.arg_count + 1)
-                      if caller.locals[i]["ty"] != "usize" and "Sodg<" not in caller.locals[i]["ty"]]
-        for f in e.facts:
-            if f[0] == "cmp" and f[1] == "!=":
-                sides = (strip_sites(f[2]), strip_sites(f[3]))
-                for x, y in (sides, sides[::-1]):
-                    has_kid = mentions(x, lambda z: z[0] == "call" and z[1].endswith("::kid"))
-                    # the other id comes from the right->left table the descent carries (whatever container it is)
-                    has_map = mentions(y, lambda z: z in aux_params) and not mentions(y, lambda z: z[0] == "call" and z[1].endswith("::kid"))
-                    if has_kid and has_map:
-                        ok = True
-        if not ok:
-            return "a call is not guarded by kid(left,a) != mapped[to]"
-    return True
+        for ip in body.raw.get("inlined", []):
+            closure.add(ip)
+            for cb in F.all_bodies():
+                if cb.kind == "Closure" and cb.parent == ip:
+                    st.append(cb.path)
+    c._merge_closure = closure
+    return closure
+
+
+def nontree_exempt_event(c, e):
+    """scoped exemption (DESIGN GC1): the event lies in merge()'s non-tree repair path, i.e. in the call closure of
+    merge() and control-dependent on the inequality of a kid() result and an id taken from the right->left table the
+    descent carries (whatever container that is).  That inequality needs a right vertex with two parents."""
+    root = e.root_body()
+    if owner_body(root).path not in merge_closure(c) and root.path not in merge_closure(c):
+        return False
+    for f in e.facts:
+        if f[0] == "cmp" and f[1] == "!=":
+            sides = (strip_sites(f[2]), strip_sites(f[3]))
+            for x, y in (sides, sides[::-1]):
+                has_kid = mentions(x, lambda z: z[0] == "call" and z[1].endswith("::kid"))
+                # the other id is looked up in the right->left table the descent carries (a lookup result, not a kid() answer,
+                # not a constant, not a plain id parameter)
+                has_map = not mentions(y, lambda z: z[0] == "call" and z[1].endswith("::kid")) and \
+                    mentions(y, lambda z: z[0] in ("call", "elem")) and not _is_constlike(y)
+                if has_kid and has_map:
+                    return True
+    return False
+
+
+def merge_nontree_exempt(c, b):
+    """kept for callers that ask about a body: true iff every state event of the body (as a root) is exempt"""
+    evs = [e for e in c.all if e.root_body() is b]
+    return True if evs and all(nontree_exempt_event(c, e) for e in evs) else "not every effect is in the non-tree repair path"
 
 
 # ---------------------------------------------------------------- GC2 removal guard
@@ -326,7 +325,8 @@ def gc2(F, R):
                 sl = slot_of(strip_load(subj), "Sodg::stores") if subj[0] == "load" else None
                 if sl is not None and is_tag_of(sl[1], reader):
                     ls = load_site(subj)
-                    if any(w.body is e.body and w.body.dominates(w.site, ls) for w in decs):
+                    # the counter is read in the body the guard was evaluated in (the root when the removal sits in a closure)
+                    if any((w.body is e.body or w.body is e.root_body()) and w.body.dominates(w.site, ls) for w in decs):
                         fc = f
                 # the written value itself compared with 0
                 core = strip_load(subj)
@@ -369,33 +369,42 @@ def gc3(F, R):
     body = c.mut["data"]
     evs = c.ev["data"]
     taken = [e for e in evs if e.kind == "pers_write" and variant_of(e.val) == "Taken"]
+    params = endpoint_params(body)
+    if not taken:
+        fin0 = body.facts_in()
+        first_read = [bi for bi in sorted(body.reachable) if bi in body.can_return and
+                      requires(fin0.get(bi, frozenset()), lambda s: is_pers_discr_of(s) and vkey(strip_load(strip_load(s)[1])[1]) is not None and
+                               strip_load(vkey(strip_load(strip_load(s)[1])[1])) in params, {"Stored"}) is not None]
+        if first_read:
+            R.bad("GC3", "GC3/Sodg::data/stored-arm-may-skip-taken", body.where((first_read[0], 0)),
+                  "a first read returns without marking the datum as read (no persistence := Taken anywhere in data())")
+            return
     R.floor("GC3", "persistence := Taken writes in data()", len(taken), 1, body.where())
-    # the switch on the reader's persistence
-    arm = None
-    for bi in sorted(body.reachable):
-        t = body.blocks[bi]["term"]
-        if t["k"] != "switch":
-            continue
-        for tgt, lab in body.succ[bi]:
-            f = body.edge_fact(bi, lab)
-            if f and f[0] == "in" and f[2] == frozenset(["Stored"]) and is_pers_discr_of(f[1]):
-                inner = strip_load(strip_load(f[1])[1])
-                k = vkey(inner[1])
-                if k is not None and strip_load(k)[0] == "param":
-                    arm = (bi, tgt, inner[1])
-    if arm is None:
-        R.missing("GC3", "dispatch on the read vertex's persistence in data()", body.where())
+    readers = [e.x for e in taken if vkey(e.x) is not None and strip_load(vkey(e.x)) in params]
+    if not readers:
+        for e in taken:
+            R.bad("GC3", "GC3/Sodg::data/taken-on-other-vertex", e.where(), "Taken is recorded on a vertex other than the one read")
+        R.missing("GC3", "Taken recorded on the vertex named by data()'s parameter", body.where())
         return
-    _, stored_entry, reader = arm
+    reader = readers[0]
     for e in taken:
         if strip_sites(e.x) != strip_sites(reader):
             R.bad("GC3", "GC3/Sodg::data/taken-on-other-vertex", e.where(), "Taken is recorded on a vertex other than the one read")
-    # every returning path of the Stored arm passes a Taken write
-    if not any(e.body is body and body.postdominates(e.site, (stored_entry, 0)) for e in taken):
-        R.bad("GC3", "GC3/Sodg::data/stored-arm-may-skip-taken", body.where((stored_entry, 0)),
+    # the first-read region: blocks on which the reader's persistence is known to be Stored (match arm, if, or what is
+    # left after guard clauses); every returning path through it passes a Taken write
+    fin = body.facts_in()
+    region = [bi for bi in sorted(body.reachable) if bi in body.can_return and
+              requires(fin.get(bi, frozenset()), lambda s: is_pers_discr_of(s, reader), {"Stored"}) is not None]
+    if not region:
+        R.missing("GC3", "a path of data() on which the read vertex is known to hold an unread datum", body.where())
+        return
+    own = [e for e in taken if e.body is body]
+    bad = [bi for bi in region if not any(body.postdominates(e.site, (bi, 0)) or body.dominates(e.site, (bi, 0)) for e in own)]
+    if bad:
+        R.bad("GC3", "GC3/Sodg::data/stored-arm-may-skip-taken", body.where((bad[0], 0)),
               "a first read can return without marking the datum as read (persistence := Taken)")
     else:
-        R.ok("GC3", body.where((stored_entry, 0)), "every returning path of the first-read arm records Taken")
+        R.ok("GC3", body.where((region[0], 0)), "every returning path of the first-read region records Taken")
     # no state event outside the Stored arm
     n = 0
     for e in evs:
@@ -574,6 +583,11 @@ def extra_guards(facts, allowed, body):
             continue
         if f[0] == "in" and strip_load(f[1])[0] == "discr" and strip_load(strip_load(f[1])[1])[0] == "next":
             continue
+        # the outcome of the free-slot search (an Option built from an item of the slot table): "no slot free" is the
+        # excluded case "more than 14 groups alive"
+        if f[0] == "in" and strip_load(f[1])[0] == "discr" and strip_load(strip_load(f[1])[1])[0] in ("phi", "find", "agg", "optmap", "opt") and \
+                mentions(f[1], lambda x: x[0] == "iter" and strip_load(x[1])[0] == "field" and strip_load(x[1])[2] == "Sodg::branches"):
+            continue
         if f[0] == "const":
             continue
         if allowed(f):
@@ -733,32 +747,52 @@ def gc6(F, R, parts="abcd"):
         body = c.mut["bind"]
         evs = c.ev["bind"]
         n = 0
-        for p in [e for e in evs if e.kind == "mem_call" and e.op == "push" and e.how == "item"]:
+        newgroup = [e for e in evs if e.kind == "mem_call" and e.op == "push" and
+                    (e.how == "item" or tag_value_class(e.i) == {"slot-key"})]
+        for p in newgroup:
             n += 1
             detail = {"list": show(p.loc, p.body), "guards": show_facts(p.facts, p.body)}
+            # the slot-table item the group id / the list comes from
+            items = [x for x in walk(p.i) if x[0] == "item" and iter_source(x[1]) is not None and
+                     strip_load(iter_source(x[1]))[0] == "field" and strip_load(iter_source(x[1]))[2] == "Sodg::branches"]
+            if not items:
+                items = [x for x in walk(p.loc) if x[0] == "item"]
             okf = None
             for f in p.facts:
+                ce = None
                 if f[0] == "bool" and f[2] is True:
                     ce = strip_load(f[1])
-                    if ce[0] == "call" and ce[1].endswith("::is_empty") and "microstack" in ce[1]:
-                        if strip_sites(strip_load(ce[2][0])) == strip_sites(strip_load(p.loc)):
-                            okf = f
+                    if not (ce[0] == "call" and ce[1].endswith("::is_empty") and "microstack" in ce[1]):
+                        ce = None
                 if f[0] == "in" and f[2] == frozenset([0]):
                     ce = strip_load(f[1])
-                    if ce[0] == "call" and ce[1].endswith("::len") and "microstack" in ce[1]:
-                        if strip_sites(strip_load(ce[2][0])) == strip_sites(strip_load(p.loc)):
-                            okf = f
+                    if not (ce[0] == "call" and ce[1].endswith("::len") and "microstack" in ce[1]):
+                        ce = None
+                if ce is not None:
+                    lst = strip_load(ce[2][0])
+                    if strip_sites(lst) == strip_sites(strip_load(p.loc)):
+                        okf = f
+                    if lst[0] == "field" and lst[2] == "(tuple)::1" and any(strip_sites(strip_load(lst[1])) == strip_sites(it) for it in items):
+                        okf = f
             if okf is None:
                 R.bad("GC6", "GC6/Sodg::bind/new-group-slot-not-checked-empty", p.where(),
                       "a new group is started in a member-list slot that is not checked to be empty", detail)
             else:
                 R.ok("GC6", p.where(), "new group takes a slot found empty, id = that slot's key", detail)
-            # the iteration must be over all slots (no skip/filter that could hide free ones)
-            it = strip_load(strip_load(p.loc)[1])
-            ads = iter_adaptors(it[1]) if it[0] == "item" else []
-            if any(a[0] not in ("enumerate",) for a in ads):
-                R.bad("GC6", "GC6/Sodg::bind/slot-search-restricted", p.where(),
-                      "the free-slot search does not scan every slot (adaptors: %s)" % [a[0] for a in ads], detail)
+            # the search must scan every slot (no skip/take that could hide free ones; a filter/find on emptiness is the search itself)
+            for it in items[:1]:
+                ads = iter_adaptors(it[1])
+                if any(a[0] not in ("enumerate", "filter") for a in ads):
+                    R.bad("GC6", "GC6/Sodg::bind/slot-search-restricted", p.where(),
+                          "the free-slot search does not scan every slot (adaptors: %s)" % [a[0] for a in ads], detail)
+                src_how = strip_load(it[1])
+                while src_how[0] == "adapt":
+                    src_how = strip_load(src_how[2])
+                if src_how[0] != "iter" or src_how[2] not in ("iter", "iter_mut", "into_iter"):
+                    R.bad("GC6", "GC6/Sodg::bind/slot-search-restricted", p.where(),
+                          "the free-slot search does not walk the slot table itself (%s)" % show(src_how, p.body), detail)
+            if not items:
+                R.bad("GC6", "GC6/Sodg::bind/slot-search-restricted", p.where(), "cannot establish GC6a: the new group's slot does not come from a scan of the slot table", detail)
         # a new-group join must exist when both are ungrouped
         R.floor("GC6", "slot-search pushes in bind()", n, 1, body.where())
     if "b" in parts:
@@ -778,6 +812,9 @@ def gc6(F, R, parts="abcd"):
                     # and post-dominates the loop's iterator construction
                     hdr = loop_header_site(e)
                     if hdr is not None and cl.body is e.body and e.body.postdominates(cl.site, hdr):
+                        ok = True
+                    # the removal runs in a closure handed to for_each: the `for_each` call is the loop
+                    if hdr is None and e.chain and cl.body is e.chain[-1][0] and cl.body.postdominates(cl.site, e.chain[-1][1]):
                         ok = True
             if not ok:
                 R.bad("GC6", "GC6/Sodg::data/destroyed-group-list-not-cleared", e.where(),
@@ -1032,8 +1069,7 @@ def gc9(F, R):
             n += 1
             fk = e.fn_key()
             if e.op in ("remove", "clear", "retain", "drain", "pop", "truncate", "take"):
-                b = owner_body(e.root_body())
-                if e.field == "Sodg::vertices" and merge_nontree_exempt(c, b) is True:
+                if e.field == "Sodg::vertices" and nontree_exempt_event(c, e):
                     R.ok("GC9", e.where(), "slot removal in merge()'s non-tree repair path (scoped exemption)")
                     continue
                 R.bad("GC9", "GC9/%s/%s-%s" % (fk, e.field.split("::")[1], e.op), e.where(),
